@@ -34,6 +34,7 @@ type Contract struct {
 	Serves    []string
 	Requires  []Clause
 	Assumes   []Clause
+	Chans     map[string]*ChanSpec
 	Defines   []Clause
 	Ensures   []Clause
 	Modifies  []*Expr // nil slice + ModAny => anything
@@ -205,6 +206,13 @@ func (ss *SpecSet) readSpecFile(path, pkg string) error {
 		case "touches":
 			if cur != nil {
 				cur.Touches = strings.Fields(rest)
+			}
+		case "chan":
+			if cur == nil {
+				return perr(fmt.Errorf("clause outside contract"))
+			}
+			if err := parseChanClause(cur, rest, where); err != nil {
+				return perr(err)
 			}
 		case "defines":
 			if cur == nil {
